@@ -737,6 +737,11 @@ func (g *genCtx) opInvoke(s int) {
 		f = &g.h.Funcs[fid] // genCtor may have grown the slice
 		f.ThenProvide, f.ThenScope = ctor.ID+1, ps
 		g.pendingThen = &thenReg{scope: ps, fn: ctor.ID}
+		if g.r.P(0.35) {
+			// ... and then fails: the registration stands, the Invoke is an error
+			f.HasErr = true
+			g.h.Faults = append(g.h.Faults, Fault{Fn: f.ID, From: 0, To: -1, Kind: FaultErr})
+		}
 	}
 	g.addOp(Op{Kind: OpInvoke, Scope: s, Fn: f.ID})
 	if g.pendingThen != nil {
